@@ -1140,8 +1140,12 @@ def replace_dict_values(name: str,
     new_dict = {}
     for n, v in dictionary.items():
         if isinstance(v, np.ndarray):
-            v = "[{0}]".format(get_mixed_range_representation(
-                v, filename_mode))
+            if v.ndim == 1 and v.size > 0:
+                v = "[{0}]".format(
+                    get_mixed_range_representation(v, filename_mode))
+            else:
+                # The range representation only exists for non-empty vectors
+                v = str(v.tolist())
         new_dict[n] = v
 
     return name.format(**new_dict)
